@@ -38,6 +38,7 @@ func evalC04(h *hz.H, sp *enum.Space, c enum.Case, b bounds, replayDet *bool, au
 	}
 	if len(c) <= 2 {
 		nilArtefacts(h, sp, c, b, d)
+		defer warmThenMutate(h, sp, c, b, g)
 	}
 	for _, det := range modes(replayDet) {
 		mo := proto.MarshalOptions{Deterministic: det}
@@ -179,6 +180,134 @@ func nilArtefacts(h *hz.H, sp *enum.Space, c enum.Case, b bounds, d proto.Messag
 			if sz != len(ref) || len(enc) != len(ref) || det && !bytes.Equal(enc, ref) {
 				h.Violate(caseKey("C04", "nil-element/size", sp, c)+"#"+shapeOf(fd), fmt.Sprintf("%s plus a nil message in field %s (det=%v): proto.Size=%d len(Marshal)=%d bytes=%x; the reference codec over the same struct gives %d bytes %x", sp.Label(c), fd.Name(), det, sz, len(enc), clip(enc), len(ref), clip(ref)), vc)
 				break
+			}
+		}
+	}
+}
+
+// nestedOf lists the populated nested messages of m (singular, list elements, map values), depth-first.
+func nestedOf(m protoreflect.Message, path string, depth int, out *[]nestedRef) {
+	if depth > 3 {
+		return
+	}
+	m.Range(func(fd protoreflect.FieldDescriptor, v protoreflect.Value) bool {
+		switch {
+		case fd.IsMap():
+			if fd.MapValue().Kind() != protoreflect.MessageKind {
+				return true
+			}
+			var keys []protoreflect.MapKey
+			v.Map().Range(func(k protoreflect.MapKey, _ protoreflect.Value) bool { keys = append(keys, k); return true })
+			sortKeys(keys)
+			for _, k := range keys {
+				nm := v.Map().Get(k).Message()
+				p := fmt.Sprintf("%s.%s[%v]", path, fd.Name(), k.Interface())
+				*out = append(*out, nestedRef{p, nm})
+				nestedOf(nm, p, depth+1, out)
+			}
+		case fd.Kind() != protoreflect.MessageKind && fd.Kind() != protoreflect.GroupKind:
+		case fd.IsList():
+			for i := 0; i < v.List().Len(); i++ {
+				nm := v.List().Get(i).Message()
+				p := fmt.Sprintf("%s.%s[%d]", path, fd.Name(), i)
+				*out = append(*out, nestedRef{p, nm})
+				nestedOf(nm, p, depth+1, out)
+			}
+		default:
+			p := path + "." + string(fd.Name())
+			*out = append(*out, nestedRef{p, v.Message()})
+			nestedOf(v.Message(), p, depth+1, out)
+		}
+		return true
+	})
+}
+
+type nestedRef struct {
+	path string
+	m    protoreflect.Message
+}
+
+func sortKeys(ks []protoreflect.MapKey) {
+	for i := 1; i < len(ks); i++ {
+		for j := i; j > 0 && fmt.Sprint(ks[j].Interface()) < fmt.Sprint(ks[j-1].Interface()); j-- {
+			ks[j], ks[j-1] = ks[j-1], ks[j]
+		}
+	}
+}
+
+// warmThenMutate: g has just been sized and marshalled (whatever those calls cache is now warm). Each
+// nested message is then changed in place - through the generated reflection API, as an application
+// holding the nested pointer would - so that its encoded size grows and shrinks, and after every
+// change Size / Marshal of the enclosing message are compared with protobuf-go's table-driven codec
+// over the same struct.
+func warmThenMutate(h *hz.H, sp *enum.Space, c enum.Case, b bounds, g proto.Message) {
+	var nested []nestedRef
+	if p := hz.Catch(func() { nestedOf(g.ProtoReflect(), "", 0, &nested) }); p != nil || len(nested) == 0 {
+		return
+	}
+	if len(nested) > 6 {
+		nested = nested[:6]
+	}
+	vc := mkCase(sp, c, b, true, "warm-then-mutate")
+	check := func(step string) bool {
+		// the generated code first: the reference codec below runs over the same struct and refreshes
+		// protobuf-go's own size caches in it
+		var sz int
+		var enc, app []byte
+		var err error
+		p := hz.Catch(func() {
+			sz = proto.Size(g)
+			enc, err = proto.MarshalOptions{Deterministic: true}.Marshal(g)
+			app, _ = proto.MarshalOptions{Deterministic: true}.MarshalAppend([]byte{0xde, 0xad}, g)
+		})
+		var ref []byte
+		if rp := hz.Catch(func() {
+			mo, err := proto.MarshalOptions{Deterministic: true, AllowPartial: true}.MarshalState(protoiface.MarshalInput{Message: enum.Slow(g)})
+			if err != nil {
+				panic(err)
+			}
+			ref = mo.Buf
+		}); rp != nil {
+			return false
+		}
+		h.Eval(true, hz.HashBytes([]byte("C04warm"), []byte(sp.MD.FullName()), []byte(step), ref))
+		if p != nil || err != nil || sz != len(ref) || !bytes.Equal(enc, ref) || !bytes.Equal(app, append([]byte{0xde, 0xad}, ref...)) {
+			h.Violate(caseKey("C04", "after-in-place-change-of-nested-message", sp, c), fmt.Sprintf("%s was sized and marshalled, then %s: now proto.Size=%d Marshal=%x MarshalAppend(dead)=%x (panic=%v err=%v); the reference codec over the same struct gives %d bytes %x", sp.Label(c), step, sz, clip(enc), clip(app), p, err, len(ref), clip(ref)), vc)
+			return false
+		}
+		return true
+	}
+	for _, n := range nested {
+		var inner protoreflect.FieldDescriptor
+		fs := n.m.Descriptor().Fields()
+		for i := 0; i < fs.Len(); i++ {
+			fd := fs.Get(i)
+			if !fd.IsList() && !fd.IsMap() && fd.Kind() != protoreflect.MessageKind && fd.Kind() != protoreflect.GroupKind {
+				inner = fd
+				break
+			}
+		}
+		if inner == nil {
+			continue
+		}
+		al := enum.ScalarAlphabet(inner, enum.Boundary)
+		big := al[len(al)-1]
+		was := n.m.Has(inner)
+		old := n.m.Get(inner)
+		if hz.Catch(func() { n.m.Set(inner, big) }) != nil {
+			continue
+		}
+		if !check(fmt.Sprintf("nested message %s had %s set to a larger value in place", n.path, inner.Name())) {
+			return
+		}
+		n.m.Clear(inner)
+		if !check(fmt.Sprintf("nested message %s had %s cleared in place", n.path, inner.Name())) {
+			return
+		}
+		if was {
+			n.m.Set(inner, old)
+			if !check(fmt.Sprintf("nested message %s had %s restored in place", n.path, inner.Name())) {
+				return
 			}
 		}
 	}
